@@ -352,8 +352,11 @@ def run_linop(ctx, prop, prop_file, n_quick, n_thorough, want):
                 T1 = lingen.gen_tree(sp, rng, rng.choice([0, 0, 1]), None, lingen.EXACT_LEAVES, True, [])
                 if int(np.prod(T1.ishape)) > 24 or int(np.prod(T1.oshape)) > 36:
                     continue
-                wrap = rng.choice(["plain", "conj", "conj", "H"])
-                T1 = {"plain": lambda: T1, "conj": lambda: sp.linop.Conj(T1), "H": lambda: T1.H}[wrap]()
+                wrap = rng.choice(["plain", "conj", "conj", "H", "scaledH", "scaledH", "conjmult"])
+                c0 = complex(rng.randint(1, 3), rng.randint(1, 3) * rng.choice([-1, 1]))
+                # scaledH: the adjoint of a complex multiple ends in a scalar Multiply with conj=True; conjmult: such a Multiply used directly
+                T1 = {"plain": lambda: T1, "conj": lambda: sp.linop.Conj(T1), "H": lambda: T1.H, "scaledH": lambda: (c0 * T1).H,
+                      "conjmult": lambda: T1 * sp.linop.Multiply(T1.ishape, c0, conj=True)}[wrap]()
                 a = complex(rng.randint(-3, 3) or 2, rng.randint(1, 3) * rng.choice([-1, 1]))
                 D1 = linser.dense(T1)
                 T2 = sp.linop.Conj(T1) if rng.random() < 0.5 else (2 - 1j) * T1
@@ -362,7 +365,8 @@ def run_linop(ctx, prop, prop_file, n_quick, n_thorough, want):
                 D3 = linser.dense(T3)
                 exprs = [("a*A", a * T1, a * D1), ("A*a", T1 * a, a * D1), ("-A", -T1, -D1), ("A+B", T1 + T2, D1 + D2),
                          ("A-B", T1 - T2, D1 - D2), ("A*B", T1 * T3, D1 @ D3), ("a*(A+B)", a * (T1 + T2), a * (D1 + D2)),
-                         ("(a*A)*B", (a * T1) * T3, a * (D1 @ D3)), ("A-a*B", T1 - a * T2, D1 - a * D2)]
+                         ("(a*A)*B", (a * T1) * T3, a * (D1 @ D3)), ("A-a*B", T1 - a * T2, D1 - a * D2),
+                         ("A*(a*B)", T1 * (a * T3), a * (D1 @ D3)), ("(A*a)*a", (T1 * a) * a, a * a * D1)]
                 # an operator that has been an OPERAND of +, -, * is unchanged by that (S = A + B kept, then S + C, S - C, a*S built)
                 Ssum = T1 + T2
                 Dsum = linser.dense(Ssum)
